@@ -7,7 +7,24 @@ pub open spec fn rec_ok(p: Seq<u8>, off: int) -> bool {
     && (be16(p, ne) == 1 ==> be16(p, ne + 8) == 4)          // A: the address accessors read 4 bytes
     && (be16(p, ne) == 28 ==> be16(p, ne + 8) == 16)        // AAAA: 16 bytes
     && (be16(p, ne) == 41 ==> ne == off + 1)                // OPT: root owner name
+    && rd_ok(p, ne)                                         // the names inside understood rdata / the option list are well-formed
 }
+// type-specific data rules of C02 for the record whose owner name ends at ne
+pub open spec fn rd_ok(p: Seq<u8>, ne: int) -> bool {
+    let t = be16(p, ne); let l = be16(p, ne + 8) as int; let d = ne + 10;
+    if t == 41 { opts(p, d, d + l).is_some() }
+    else if t == 2 || t == 5 || t == 12 { name_end(p, d) == Some(d + l) }
+    else if t == 15 { l > 2 && name_end(p, d + 2) == Some(d + l) }
+    else if t == 6 { name_end(p, d) matches Some(n1) && (name_end(p, n1) matches Some(n2) && l > 21 && n2 + 20 == d + l) }
+    else if t == 39 { plain_end(p, d) == Some(d + l) }
+    else { true }
+}
+// a structurally valid record is exactly what the validator accepts there, up to the OPT placement rules
+pub proof fn lemma_rec_rr_spec(p: Seq<u8>, off: int, sec: SecT, seen: bool)
+    requires rec_ok(p, off)
+    ensures rr_spec(p, off, sec, seen) == (if is_opt(p, off) { if sec is Additional && !seen { Some((rec_end(p, off), true)) } else { None } }
+                                           else { Some((rec_end(p, off), false)) })
+{ }
 pub open spec fn rec_end(p: Seq<u8>, off: int) -> int { rec_ne(p, off) + 10 + be16(p, rec_ne(p, off) + 8) }
 pub open spec fn sec_end(p: Seq<u8>, off: int, n: int) -> int decreases n { if n <= 0 { off } else { sec_end(p, rec_end(p, off), n - 1) } }
 pub open spec fn recs_all(p: Seq<u8>, off: int, n: int) -> bool decreases n { if n <= 0 { true } else { rec_ok(p, off) && recs_all(p, rec_end(p, off), n - 1) } }
